@@ -20,7 +20,7 @@ import (
 
 // C20 - behaviour depends on the schema's content, not on how it was loaded.
 
-const ruleC20 = "rapid draws scenarios against the repository's LibraryService and ContentService (all client forms incl. REST bindings with path variables, body and response_body selectors, HttpBody up/downloads; target protocol / codec / compression configurations; schema-driven messages; OK and error backends) and runs each against a reference Transcoder built with NewService (generated code) and against a variant that differs ONLY in how the schema is supplied: (a) NewServiceWithSchema with a fresh protodesc copy of the file, (b) the same with the google.api.http options re-parsed as dynamically typed extensions, (c) a type resolver that knows none of the types (dynamic fallback), (d) dynamic descriptors with the generated types as resolver, (e) a service descriptor wrapper without parent file, (f) a newer revision of the files (every message gained a field) loaded under the SAME path as the linked-in generated files, compared with the same revision loaded under a path the global registry does not know, with messages that carry the added field. Oracle (differential): NewTranscoder succeeds for every variant, and client status, outcome, messages, headers, trailers and the backend-observed request (protocol, codec, compression, request line, messages) are identical to the reference. Non-trivial = the scenario exercises a REST binding or a JSON re-encode; distinct by hash(variant, scenario)."
+const ruleC20 = "rapid draws scenarios against the repository's LibraryService and ContentService (all client forms incl. REST bindings with path variables, body and response_body selectors, HttpBody up/downloads; target protocol / codec / compression configurations; schema-driven messages; OK and error backends) and runs each against a reference Transcoder built with NewService (generated code) and against a variant that differs ONLY in how the schema is supplied: (a) NewServiceWithSchema with a fresh protodesc copy of the file, (b) the same with the google.api.http options re-parsed as dynamically typed extensions, (c) a type resolver that knows none of the types (dynamic fallback), (d) dynamic descriptors with the generated types as resolver, (e) a service descriptor wrapper without parent file, (f) a newer revision of the files (every message gained a field) loaded under the SAME path as the linked-in generated files, compared with the same revision loaded under a path the global registry does not know, with messages that carry the added field, (g) a reload of the files with moved google.api.http paths and dynamically typed options (after the first revision was served by the same process), compared with the same reload with statically typed options, REST requests going to the moved paths. Error details carry type URLs with several prefixes. Oracle (differential): NewTranscoder succeeds for every variant, and client status, outcome, messages, headers, trailers and the backend-observed request (protocol, codec, compression, request line, messages) are identical to the reference. Non-trivial = the scenario exercises a REST binding or a JSON re-encode; distinct by hash(variant, scenario)."
 
 const (
 	librarySvc = "vanguard.test.v1.LibraryService"
@@ -128,7 +128,86 @@ func buildVariants() {
 			variantError = err
 			return
 		}
+		// (g) a reload of the same files with changed google.api.http rules (every path moves from
+		// /v1/... to /v9/..., /v2/... to /v8/...): once with statically typed options (the reference)
+		// and once with dynamically typed ones
+		set2 := fileSetFor("vanguard/test/v1/library.proto", "vanguard/test/v1/content.proto")
+		for _, f := range set2.File {
+			for _, sv := range f.GetService() {
+				for _, m := range sv.GetMethod() {
+					if m.GetOptions() != nil && proto.HasExtension(m.GetOptions(), annotations.E_Http) {
+						rule := proto.Clone(proto.GetExtension(m.GetOptions(), annotations.E_Http).(*annotations.HttpRule)).(*annotations.HttpRule)
+						movedRule(rule)
+						for _, a := range rule.GetAdditionalBindings() {
+							movedRule(a)
+						}
+						proto.SetExtension(m.Options, annotations.E_Http, rule)
+					}
+				}
+			}
+		}
+		reloadedStatic, err = protodesc.NewFiles(set2)
+		if err != nil {
+			variantError = err
+			return
+		}
+		raw2, err := proto.Marshal(set2)
+		if err != nil {
+			variantError = err
+			return
+		}
+		var dynSet2 descriptorpb.FileDescriptorSet
+		if err := (proto.UnmarshalOptions{Resolver: dynamicpb.NewTypes(reloadedStatic)}).Unmarshal(raw2, &dynSet2); err != nil {
+			variantError = err
+			return
+		}
+		reloadedDynamic, err = protodesc.NewFiles(&dynSet2)
+		if err != nil {
+			variantError = err
+			return
+		}
 	})
+}
+
+var reloadedStatic, reloadedDynamic *protoregistry.Files
+
+func movedPath(p string) string {
+	switch {
+	case strings.HasPrefix(p, "/v1/"):
+		return "/v9/" + p[4:]
+	case strings.HasPrefix(p, "/v2/"):
+		return "/v8/" + p[4:]
+	case p == "":
+		return p
+	}
+	return "/moved" + p
+}
+
+func movedRule(r *annotations.HttpRule) {
+	switch p := r.GetPattern().(type) {
+	case *annotations.HttpRule_Get:
+		p.Get = movedPath(p.Get)
+	case *annotations.HttpRule_Put:
+		p.Put = movedPath(p.Put)
+	case *annotations.HttpRule_Post:
+		p.Post = movedPath(p.Post)
+	case *annotations.HttpRule_Delete:
+		p.Delete = movedPath(p.Delete)
+	case *annotations.HttpRule_Patch:
+		p.Patch = movedPath(p.Patch)
+	case *annotations.HttpRule_Custom:
+		p.Custom.Path = movedPath(p.Custom.GetPath())
+	}
+}
+
+// movedBindings: the bindings of a method after the reload.
+func movedBindings(service, method string) []RuleSpec {
+	var out []RuleSpec
+	for _, b := range annotationBindings(service, method) {
+		b.Template = movedPath(b.Template)
+		out = append(out, b)
+	}
+	return out
 }
 
 func serviceFrom(files *protoregistry.Files, name string) protoreflect.ServiceDescriptor {
@@ -140,7 +219,7 @@ func serviceFrom(files *protoregistry.Files, name string) protoreflect.ServiceDe
 	return sd
 }
 
-var c20Variants = []string{"copy", "dynamic_options", "unknown_types", "dynamic_desc_generated_types", "no_parent_file", "revised_same_path", "revised_same_path"}
+var c20Variants = []string{"copy", "dynamic_options", "unknown_types", "dynamic_desc_generated_types", "no_parent_file", "revised_same_path", "revised_same_path", "reloaded_rules_dynamic"}
 
 // revisedFiles: a newer revision of the two service files in which every top-level message gained
 // a field (verif_extra = 99). With samePath the files keep the path of the linked-in generated
@@ -249,6 +328,10 @@ func buildC20(variant string, cfg Config, handler http.Handler) (*vanguard.Trans
 			svcs = append(svcs, vanguard.NewServiceWithSchema(serviceFrom(dynOptFiles, name), handler, append(append([]vanguard.ServiceOption{}, so...), vanguard.WithTypeResolver(protoregistry.GlobalTypes))...))
 		case "no_parent_file":
 			svcs = append(svcs, vanguard.NewServiceWithSchema(noParentService{serviceFrom(copiedFiles, name)}, handler, so...))
+		case "reloaded_rules_static":
+			svcs = append(svcs, vanguard.NewServiceWithSchema(serviceFrom(reloadedStatic, name), handler, so...))
+		case "reloaded_rules_dynamic":
+			svcs = append(svcs, vanguard.NewServiceWithSchema(serviceFrom(reloadedDynamic, name), handler, so...))
 		case "revised_same_path", "revised_other_path":
 			files, err := revised(variant == "revised_same_path")
 			if err != nil {
@@ -475,6 +558,15 @@ func checkC20(c *schemaCase) *CheckResult {
 	raw, _ := json.Marshal(c)
 	res.Key = string(raw)
 	refVariant := "generated"
+	if c.Variant == "reloaded_rules_dynamic" {
+		// the reference is the same reloaded schema with statically typed options; the first revision
+		// (dynamically typed, original rules) has been served by this process before the reload
+		refVariant = "reloaded_rules_static"
+		if _, err := buildC20("dynamic_options", sc.Config, http.NotFoundHandler()); err != nil && strings.HasPrefix(err.Error(), "harness:") {
+			res.violate("harness", "harness", "%s", err)
+			return res
+		}
+	}
 	if c.Variant == "revised_same_path" {
 		// the revised schema has no generated counterpart: the reference is the same content loaded
 		// under a file path the global registry does not know
